@@ -46,6 +46,7 @@ fn main() {
         "c15" => c15::main(&args),
         "c11" => c11::main(&args),
         "c17" => c17::main(&args),
+        "c17sem" => c17::main_sem(&args),
         "c19" => c19::main(&args),
         "c13" => c13::main(&args),
         "c16" => c16::main(&args),
